@@ -49,6 +49,8 @@ type TestDir struct {
 	Clean bool `json:"clean"`
 	// Probes: additional URL paths to request (model comparison only).
 	Probes []string `json:"probes,omitempty"`
+	// Big: a big module generated from a compact description (see big.go); Mods is empty then.
+	Big *BigSpec `json:"big,omitempty"`
 }
 
 func escPath(p string) (string, bool) {
